@@ -1385,8 +1385,8 @@ func TestVerif_C15(t *testing.T) {
 	if err != nil {
 		work = rec.Work
 	}
-	nTrees := rec.N(300, 6000)
-	nArcs := rec.N(300, 6000)
+	nTrees := rec.N(100, 1500)
+	nArcs := rec.N(100, 1500)
 	rt := rec.Rand(1)
 	trees := make([]*treeCase, nTrees)
 	for i := range trees {
@@ -1397,7 +1397,7 @@ func TestVerif_C15(t *testing.T) {
 	for i := range arcs {
 		arcs[i] = genArcCase(ra)
 	}
-	const workers = 8
+	const workers = 12
 	results := parallelMap(nTrees+nArcs, workers, func(i int) *c15Result {
 		var res *c15Result
 		msg, stack, p := kit.Guard(func() {
